@@ -446,7 +446,7 @@ func runC19(e *Env) {
 		"XML strings restricted to characters XML can carry",
 		"text/html is never generated in front of a supported type in Accept lists: the statement does not say whether HTML counts as supported",
 	}
-	e.RunCases("histories", e.N(8000, 600000), 0, func(t *T) {
+	e.RunCases("histories", e.N(20000, 600000), 0, func(t *T) {
 		r := t.R
 		n := 3 + r.IntN(6)
 		var descs []string
